@@ -176,4 +176,5 @@ def _first_diff(a, b):
 def streams(tier):
     n = 8 if tier == 'quick' else 12
     return [Stream('both-schedulers', check, strategy=lambda: c06_case(max_tasks=n),
-                   examples={'quick': 5000, 'thorough': 60000})]
+                   examples={'quick': 5000, 'thorough': 60000}),
+            Stream('large', check, strategy=lambda: c06_case(max_tasks=30), examples={'quick': 300, 'thorough': 4000})]
